@@ -75,7 +75,7 @@ Section Mutex.
 Variable c : cfg.
 Hypothesis Hren : 4 <= c_ren c.
 
-Ltac unf := unfold cancel, cancel_if in *; unfold upd_li, upd_part in *;
+Ltac unf := unfold cancel, cancel_if, gone in *; unfold upd_li, upd_part in *;
   unfold set_lis, set_parts, set_stg, set_now, set_hist,
   set_live, set_ph, set_last, set_cad, set_api, set_map, set_fin in *; cbn [now stg parts lis hist
   lown lkey lval ldur llive lph llast lcad pfin pmap papi] in *.
@@ -371,7 +371,7 @@ Proof.
       assert (seen (D, i)) by exact Logic.I; pose proof (D _ _ Hl) end;
     rewrite ?Cr, ?Cc in *; scbn; rewrite ?andb_false_r; try easy1; try solve [auto];
     try solve [intuition congruence].
-  all: rewrite andb_true_r; auto.
+  all: rewrite ?andb_true_r; try (match goal with |- ?a && _ = false => assert (a = false) as -> by auto; reflexivity end); auto.
 Qed.
 
 Lemma run_cad_dead acts : forall s s', c_cfr c = true -> c_cfc c = true -> InvT c s -> cad_dead s ->
@@ -500,5 +500,64 @@ Proof.
     repeat match goal with E : lph _ = _ |- _ => rewrite E end; scbn; rewrite ?Hv; scbn;
     try (split; [lia | reflexivity]); try congruence.
   all: cbn [grank]; split; [lia | reflexivity].
+Qed.
+
+(* ---- step-down bound when the renewal goroutine cancels its context on every return ---- *)
+Definition dur_ok (a : aphase) : Prop := match a with AIns _ _ d | AInsRet _ _ d _ => 1 <= d | _ => True end.
+Record InvS (s : state) : Prop := mkInvS {
+  sL : forall i l, li_at s i l -> llast l <= now s /\ 1 <= ldur l;
+  sD : forall p q, pt_at s p q -> dur_ok (papi q);
+  sT : forall i l, li_at s i l -> llive l = true -> timing c s i l /\ lph l <> MGone
+}.
+Ltac satS S :=
+  repeat match goal with
+  | H : nth_error (lis ?s) ?i = Some ?l |- _ =>
+    lazymatch goal with _ : seen (S, i, l) |- _ => fail | _ => idtac end;
+    assert (seen (S, i, l)) by exact Logic.I;
+    pose proof (sL _ S _ _ H); pose proof (sT _ S _ _ H)
+  | H : nth_error (parts ?s) ?p = Some ?q |- _ =>
+    lazymatch goal with _ : seen (S, p, q) |- _ => fail | _ => idtac end;
+    assert (seen (S, p, q)) by exact Logic.I;
+    pose proof (sD _ S _ _ H)
+  end.
+
+Lemma step_InvS s a s' o : c_coe c = true -> InvS s -> wf_action a -> step c s a = Some (s', o) -> InvS s'.
+Proof.
+  intros Ce S W H. constructor.
+  - destruct a; inv_step H; intros; nthsimp; satS S; unfold dur_ok in *; rw_ph; scbn; destr; try lia.
+  - destruct a; inv_step H; intros; nthsimp; satS S; unfold dur_ok in *; rw_ph; scbn; destr; try easy1; cbn in W; try lia.
+  - destruct a; inv_step H; intros; nthsimp; satS S; unfold dur_ok, timing, itv in *; rewrite ?Ce in *; rw_ph; scbn;
+      andb_h; quiet_h; rw_ph; scbn; andb_h; zb; destr; itvb; destr; try easy1; live_h; destr;
+      brk_goal; rw_ph; scbn; andb_h; zb; destr; try easy1;
+      try (split; [repeat split; first [lia | discriminate | intros; lia] | discriminate]).
+  split; [pose proof (H10 eq_refl); lia | discriminate].
+Qed.
+
+Lemma init_InvS np : InvS (init np).
+Proof.
+  constructor; unfold li_at, pt_at, init; cbn; intros;
+    try (match goal with H : nth_error [] ?i = Some _ |- _ => destruct i; discriminate H end).
+  apply nth_error_In in H. apply repeat_spec in H. subst. exact Logic.I.
+Qed.
+
+Lemma run_InvS acts : forall s s', c_coe c = true -> InvS s -> Forall wf_action acts ->
+  run c s acts = Some s' -> InvS s'.
+Proof.
+  induction acts as [|a r IH]; intros s s' Ce S W H; cbn in H.
+  - inversion H; subst; auto.
+  - destruct (step c s a) as [[s1 o]|] eqn:E; [|discriminate]. inversion W; subst.
+    apply (IH s1 s'); auto. eapply step_InvS; eauto.
+Qed.
+
+(* with cancel() on every return of the renewal goroutine the bound holds for every history *)
+Lemma step_down_bound_coe_proved np acts s i l :
+  c_coe c = true -> Forall wf_action acts -> run c (init np) acts = Some s ->
+  li_at s i l -> llive l = true ->
+  now s <= llast l + 2 * interval c (ldur l) /\ 2 * (2 * interval c (ldur l)) <= ldur l * sec.
+Proof.
+  intros Ce W R Hl Hv. pose proof (run_InvS acts _ _ Ce (init_InvS np) W R) as S.
+  destruct (sL _ S _ _ Hl) as (_ & Hd). pose proof (interval_bound c _ Hren Hd) as (H0 & H4).
+  destruct (sT _ S _ _ Hl Hv) as (T & _). unfold timing, itv in T. split; [|lia].
+  destruct (lph l); lia.
 Qed.
 End Mutex.
